@@ -624,6 +624,9 @@ def event_inputs_to_events(
                     ]
                 )
             )
+        # the successor sets were filled in directly: the cached (empty)
+        # logic gate tree no longer matches them
+        event._update_since_logic_gate_tree = True
         for eventSetList in eventInput.incomingEventSets:
             event.in_event_sets.add(
                 EventSet(
